@@ -1,4 +1,5 @@
 import PyecoreModel.Lemmas.StoreProps
+import PyecoreModel.Lemmas.SetOps
 /-!
 # C02 — Every object has exactly one owner, and the back-pointers say so
 
@@ -16,6 +17,12 @@ theorem C02_step (mm : MM) (hwf : mm.WF) (s : St) (h : Inv mm s) (op : Op) :
 theorem C02_reachable (mm : MM) (hwf : mm.WF) (ops : List Op) :
     Own mm (run mm ops) ∧ ResOK (run mm ops) ∧ Card mm (run mm ops) :=
   let i := inv_run mm hwf ops; ⟨i.2.2.1, i.2.2.2, i.2.1⟩
+
+/-- … with the other mutators of a set (`discard`, `-=`, `&=`, `^=`, the `*_update` family) in the history -/
+theorem C02_reachable_setops (mm : MM) (hwf : mm.WF) (w : List (Op ⊕ SetOp)) :
+    Own mm (runAny mm w) ∧ ResOK (runAny mm w) ∧ Card mm (runAny mm w) := by
+  obtain ⟨ops, h⟩ := runAny_flat mm w
+  rw [h]; exact C02_reachable mm hwf ops
 
 /-- **At most one owner**: two containment slots holding `o` are the same slot; it holds `o` once; an object held by a
 containment slot is in no resource's root list; an object is a root of at most one resource, once. -/
